@@ -85,5 +85,27 @@ __CPROVER_ensures(/*candidates-are-the-OWN-properties-of-the-linked-section*/ !g
 __CPROVER_ensures(/*own-properties-are-read-from-the-section-itself*/ gh_prop_calls_self == 1 && nix_exc == EXC_NONE)
 NIX_CANARY(section_inherit_sources) __CPROVER_assigns(nix_exc, gh_prop_calls_self, gh_prop_calls_link, gh_inh_calls)
 ;
+/* File::findSections (src/File.cpp) and Block::findSources (src/Block.cpp): the searches started at the file / the block - the bodies of their loops
+   over the root sections / the top-level sources (region units).
+   File: a root section is filtered exactly once and reported iff accepted, BEFORE its subtree; its subtree is searched once, from that root, with the
+   same filter and one level less (roots are level 1), and that answer is appended after it.  Block: each top-level source's own search (which reports
+   the source itself at level 0) is asked once with the same filter and the same depth limit, and its answer is appended.
+   NOT decided: the loop headers, the early return of File::findSections for depth 0 (it is what makes "max_depth - 1" safe: a precondition here). */
+typedef struct { int serial; size_t n; } vec_SectionA;            /* a search answer as a value */
+extern int gh_fs_calls, gh_fs_node, gh_fs_filter, gh_fs_after_report, gh_fs_appends, gh_fs_append_serial, gh_fs_append_after_report; extern size_t gh_fs_depth;
+#define FS_FILTER_ID 5
+#define FS_SERIAL 31
+static inline vec_SectionA Section_findSections_a(const Section *s, const SectionFilterFn *f, size_t depth)
+{ gh_fs_calls++; gh_fs_node = s->node; gh_fs_filter = f->_f; gh_fs_depth = depth; gh_fs_after_report = gh_res_pushes + gh_filter_calls; vec_SectionA v; v.serial = FS_SERIAL; v.n = 0; return v; }
+static inline void vec_Section_append(vec_Section *dst, const vec_SectionA *src)
+{ gh_fs_appends++; gh_fs_append_serial = src->serial; gh_fs_append_after_report = gh_res_pushes; }
+void file_find_root(const SectionFilterFn *filter, size_t max_depth, vec_Section *results, Section *root)
+__CPROVER_requires(__CPROVER_is_fresh(filter, sizeof(SectionFilterFn)) && filter->_f == FS_FILTER_ID && __CPROVER_is_fresh(results, sizeof(vec_Section)) && __CPROVER_is_fresh(root, sizeof(Section)) && root->node >= 0 &&
+                   max_depth >= 1 && gh_filter_calls == 0 && gh_res_pushes == 0 && gh_fs_calls == 0 && gh_fs_appends == 0 && (gh_filter_ok == 0 || gh_filter_ok == 1) && nix_exc == EXC_NONE)
+__CPROVER_ensures(/*the-root-is-filtered-once-and-reported-iff-accepted*/ gh_filter_calls == 1 && gh_filter_node == root->node && gh_res_pushes == (gh_filter_ok ? 1 : 0) && (gh_filter_ok ==> gh_res_node == root->node))
+__CPROVER_ensures(/*its-subtree-is-searched-once-from-that-root-with-the-same-filter-one-level-less*/ gh_fs_calls == 1 && gh_fs_node == root->node && gh_fs_filter == FS_FILTER_ID && gh_fs_depth == max_depth - 1)
+__CPROVER_ensures(/*the-subtree-answer-is-appended-after-the-root*/ gh_fs_appends == 1 && gh_fs_append_serial == FS_SERIAL && gh_fs_append_after_report == gh_res_pushes && nix_exc == EXC_NONE)
+NIX_CANARY(file_find_root) __CPROVER_assigns(nix_exc, gh_filter_calls, gh_filter_node, gh_res_pushes, gh_res_node, gh_fs_calls, gh_fs_node, gh_fs_filter, gh_fs_depth, gh_fs_after_report, gh_fs_appends, gh_fs_append_serial, gh_fs_append_after_report)
+;
 #undef RV
 #endif
